@@ -6,6 +6,7 @@
 -/
 import VK.Lemmas.RepEq
 import VK.Lemmas.RescoreLin
+import VK.Lemmas.Rename
 import VK.Model.Rules
 namespace VK
 
@@ -231,5 +232,106 @@ theorem C08_condoborda_rep (cands : List Cand) (a b : List Ballot) (h : RepEq a 
     | raised e => rfl
     | oracleMismatch => rfl
     | outOfFuel => rfl
+
+end VK
+
+namespace VK
+/-! ### TopTwo -/
+
+theorem finalistStage_rep (cands : List Cand) (a b : List Ballot) (h : RepEq a b) (k : Nat) (tb : Option TB)
+    (pri : List Cand) :
+    (finalistStage { ballots := a, cands := cands } k tb pri).map (fun x => (x.1, x.2.1, x.2.2.cands)) =
+      (finalistStage { ballots := b, cands := cands } k tb pri).map (fun x => (x.1, x.2.1, x.2.2.cands)) ∧
+    ∀ x y, finalistStage { ballots := a, cands := cands } k tb pri = .ok x →
+      finalistStage { ballots := b, cands := cands } k tb pri = .ok y →
+      x.2.2.cands = y.2.2.cands ∧ RepEq x.2.2.ballots y.2.2.ballots := by
+  unfold finalistStage
+  rw [scoreRep_fpv cands a b h, C08_plurality_rep cands a b h]
+  cases firstPlaceVotes { ballots := b, cands := cands } with
+  | ok sc0 =>
+    simp only [Outcome.bind_ok]
+    cases pluralityRun { ballots := b, cands := cands } k tb pri with
+    | ok pl =>
+      simp only [Outcome.bind_ok]
+      match pl with
+      | [] => exact ⟨rfl, fun x y hx => by cases hx⟩
+      | [_] => exact ⟨rfl, fun x y hx => by cases hx⟩
+      | _ :: _ :: _ :: _ => exact ⟨rfl, fun x y hx => by cases hx⟩
+      | [s0, s1] =>
+        simp only []
+        have hrc : firstPlaceVotes (removeCand s1.remaining.flatten { ballots := a, cands := cands }) =
+            firstPlaceVotes (removeCand s1.remaining.flatten { ballots := b, cands := cands }) := by
+          unfold removeCand
+          exact scoreRep_fpv _ _ _ (h.removeCand s1.remaining.flatten)
+        rw [hrc]
+        cases firstPlaceVotes (removeCand s1.remaining.flatten { ballots := b, cands := cands }) with
+        | ok sc1 =>
+          simp only [Outcome.bind_ok, Outcome.pure_eq, Outcome.map_ok]
+          refine ⟨rfl, fun x y hx hy => ?_⟩
+          injection hx with hx; injection hy with hy
+          subst hx; subst hy
+          exact ⟨rfl, h.removeCand s1.remaining.flatten⟩
+        | raised e => exact ⟨rfl, fun x y hx => by cases hx⟩
+        | oracleMismatch => exact ⟨rfl, fun x y hx => by cases hx⟩
+        | outOfFuel => exact ⟨rfl, fun x y hx => by cases hx⟩
+    | raised e => exact ⟨rfl, fun x y hx => by cases hx⟩
+    | oracleMismatch => exact ⟨rfl, fun x y hx => by cases hx⟩
+    | outOfFuel => exact ⟨rfl, fun x y hx => by cases hx⟩
+  | raised e => exact ⟨rfl, fun x y hx => by cases hx⟩
+  | oracleMismatch => exact ⟨rfl, fun x y hx => by cases hx⟩
+  | outOfFuel => exact ⟨rfl, fun x y hx => by cases hx⟩
+
+/-- **C08 (ballot representation, TopTwo).** -/
+theorem C08_toptwo_rep (cands : List Cand) (a b : List Ballot) (h : RepEq a b) (tb : Option TB) (pri : Nat → List Cand) :
+    topTwoRun { ballots := a, cands := cands } tb pri = topTwoRun { ballots := b, cands := cands } tb pri := by
+  unfold topTwoRun
+  rw [rankingValid_rep cands a b h]
+  split
+  · rfl
+  · have hfs := finalistStage_rep cands a b h 2 tb (pri 1)
+    cases hA : finalistStage { ballots := a, cands := cands } 2 tb (pri 1) with
+    | ok x =>
+      cases hB : finalistStage { ballots := b, cands := cands } 2 tb (pri 1) with
+      | ok y =>
+        obtain ⟨xs0, xs1, xp⟩ := x
+        obtain ⟨ys0, ys1, yp⟩ := y
+        have h1 := hfs.1
+        rw [hA, hB] at h1
+        simp only [Outcome.map_ok, Outcome.ok.injEq, Prod.mk.injEq] at h1
+        obtain ⟨e0, e1, _⟩ := h1
+        obtain ⟨ec, hr⟩ := hfs.2 _ _ hA hB
+        simp only [Outcome.bind_ok]
+        have hp : pluralityRun xp 1 tb (pri 2) = pluralityRun yp 1 tb (pri 2) := by
+          have hx : xp = { ballots := xp.ballots, cands := xp.cands } := rfl
+          have hy : yp = { ballots := yp.ballots, cands := xp.cands } := by
+            have : yp.cands = xp.cands := ec.symm
+            cases yp; simp_all
+          rw [hx, hy]
+          exact C08_plurality_rep xp.cands xp.ballots yp.ballots hr 1 tb (pri 2)
+        rw [hp, e0, e1]
+      | raised e => have h1 := hfs.1; rw [hA, hB] at h1; cases h1
+      | oracleMismatch => have h1 := hfs.1; rw [hA, hB] at h1; cases h1
+      | outOfFuel => have h1 := hfs.1; rw [hA, hB] at h1; cases h1
+    | raised e =>
+      have h1 := hfs.1; rw [hA] at h1
+      cases hB : finalistStage { ballots := b, cands := cands } 2 tb (pri 1) with
+      | ok y => rw [hB] at h1; cases h1
+      | raised e' => rw [hB] at h1; simp only [Outcome.map_raised] at h1; injection h1 with h1; subst h1; rfl
+      | oracleMismatch => rw [hB] at h1; cases h1
+      | outOfFuel => rw [hB] at h1; cases h1
+    | oracleMismatch =>
+      have h1 := hfs.1; rw [hA] at h1
+      cases hB : finalistStage { ballots := b, cands := cands } 2 tb (pri 1) with
+      | ok y => rw [hB] at h1; cases h1
+      | raised e' => rw [hB] at h1; cases h1
+      | oracleMismatch => rfl
+      | outOfFuel => rw [hB] at h1; cases h1
+    | outOfFuel =>
+      have h1 := hfs.1; rw [hA] at h1
+      cases hB : finalistStage { ballots := b, cands := cands } 2 tb (pri 1) with
+      | ok y => rw [hB] at h1; cases h1
+      | raised e' => rw [hB] at h1; cases h1
+      | oracleMismatch => rw [hB] at h1; cases h1
+      | outOfFuel => rfl
 
 end VK
